@@ -26,6 +26,8 @@ BIN = bytes([b for b in range(1, 256)])
 
 
 def mk_msg(n, kind):
+    if kind == 'nl':          # ends in a line feed (and has one inside): the record terminator is still added
+        return (b'line one\nline two ' * (n // 18 + 1))[:max(0, n - 1)] + b'\n'
     if kind == 'ascii':
         return (b'ABCDEFGHIJ' * (n // 10 + 1))[:n]
     return (BIN * (n // 255 + 1))[:n]
@@ -59,7 +61,7 @@ def plan(tier):
     for name, oline, sink, so, se, sb, sizes, framing in outputs():
         cases = []
         for n in sizes:
-            for kind in ('ascii', 'bin'):
+            for kind in ('ascii', 'bin', 'nl'):
                 for cn, cl, passes in chains:
                     for oc in outcomes:
                         if tier == 'quick' and oc == (0, 0) and n not in (1, 4096):
@@ -88,7 +90,7 @@ def plan(tier):
     for plen in ('short', 106, 107):
         cases = []
         for n in ([1, 4096, 65536] if tier == 'quick' else base_sizes):
-            for kind in ('ascii', 'bin'):
+            for kind in ('ascii', 'bin', 'nl'):
                 for cn, cl, passes in chains:
                     cases.append(dict(cfg=None, oline='socket', cl=cl, M=mk_msg(n, kind), sink='sock', framing='dgram', logged=passes, main=mk_msg(n, kind), errlog=False, oc=(-1, 2),
                                       label='socket-%s/n=%d/%s/chain=%s' % (plen, n, kind, cn)))
